@@ -713,5 +713,8 @@ def run_I(aa, v, m, g, gi, seed, t):
                 rd2 = prof.stacked(grid)
                 v.ok(_close(_a(rd2), got, 1.0), "decorator:iterate", lambda: "%s stacked %s direct %s" % (tag, _a(rd2).tolist(), got.tolist()))
     v.nontrivial = len(seen_levels) >= 2
+    total = n * len(IT_PROGRAMS) * len(configs)
+    frac_skip = nskip / float(total)
+    bucket = "" if nskip == 0 else (":skip<2%" if frac_skip < 0.02 else (":skip<10%" if frac_skip < 0.1 else ":skip>=10%"))
     v.outcome = "I:n%d:levels=%s%s%s" % (n, ",".join(str(s) for s in sorted(seen_levels, key=str)),
-                                        ":skip" if nskip else "", ":zero-shortcut" if shortcut else "")
+                                        bucket, ":zero-shortcut" if shortcut else "")
